@@ -2,13 +2,17 @@ module verifharness
 
 go 1.20
 
-require github.com/acquirecloud/golibs v0.0.0
+require (
+	github.com/acquirecloud/golibs v0.0.0
+	google.golang.org/genproto v0.0.0-20230306155012-7f2fa6fef1f4
+	google.golang.org/grpc v1.55.0
+	google.golang.org/protobuf v1.30.0
+)
 
 require (
+	github.com/edsrzf/mmap-go v1.1.0 // indirect
 	github.com/golang/protobuf v1.5.3 // indirect
-	google.golang.org/genproto v0.0.0-20230306155012-7f2fa6fef1f4 // indirect
-	google.golang.org/grpc v1.55.0 // indirect
-	google.golang.org/protobuf v1.30.0 // indirect
+	golang.org/x/sys v0.6.0 // indirect
 )
 
 replace github.com/acquirecloud/golibs => /repo
